@@ -393,6 +393,9 @@ func (cc *connectUnaryClientConn) validateResponse(response *http.Response) *Err
 			reader:          response.Body,
 			compressionPool: cc.compressionPools.Get(compression),
 			bufferPool:      cc.bufferPool,
+			// The error takes the place of the response message, so the same
+			// limit applies to it.
+			readMaxBytes: cc.unmarshaler.readMaxBytes,
 		}
 		var serverErr Error
 		if err := unmarshaler.UnmarshalFunc(
